@@ -249,6 +249,85 @@ func TestGovcC01(t *testing.T) {
 		}
 	}
 	rec(nil)
+	// Part 2 (C06, origins): Elems() round trip over patterns of the REAL grammar
+	// (IPv6/IPv4 literals and domains with shared byte suffixes). Every input is
+	// accepted by ParsePattern, so every rendered element must be accepted too,
+	// rendering must be a fixed point, and every wildcard-free input must still
+	// be contained as an origin. A parse failure here is a failure, never skipped.
+	var real []Pattern
+	var realStr []string
+	for _, s := range []string{
+		"http://[2001:db8::1]", "http://[2002:db8::1]:8443", "http://[2001:db8::2]:*", "https://[::1]", "http://[::1]:9090",
+		"http://[1::1]", "http://[2::1]:81", "http://127.0.0.1", "http://127.0.0.1:8080", "http://127.0.1.1:*",
+		"https://example.com", "https://*.example.com", "https://xample.com:8080", "https://*.ample.com:*", "https://a.example.com.",
+		"http://localhost:*", "http://localhost", "https://example.com:8443", "http://example.com", "https://*.a.example.com:8443",
+	} {
+		pt, err := ParsePattern(s)
+		if err != nil {
+			continue
+		}
+		real = append(real, pt)
+		realStr = append(realStr, s)
+	}
+	if len(real) < 16 {
+		fails++
+		fmt.Printf("GOVC-C01-FAIL list=[] only %d of the real-grammar patterns are accepted by ParsePattern\n", len(real))
+	}
+	checkReal := func(idx []int) {
+		lists++
+		var tree Tree
+		var names []string
+		for _, i := range idx {
+			pt := real[i]
+			tree.Insert(&pt)
+			names = append(names, realStr[i])
+		}
+		elems := tree.Elems()
+		var tree2 Tree
+		for _, s := range elems {
+			p2, err := ParsePattern(s)
+			if err != nil {
+				fails++
+				if fails <= 20 {
+					fmt.Printf("GOVC-C01-FAIL list=%v Elems() renders %q, which ParsePattern rejects\n", strings.Join(names, ","), s)
+				}
+				return
+			}
+			tree2.Insert(&p2)
+		}
+		if e2 := tree2.Elems(); strings.Join(e2, " ") != strings.Join(elems, " ") {
+			fails++
+			if fails <= 20 {
+				fmt.Printf("GOVC-C01-FAIL list=%v Elems() is not a fixed point: %q then %q\n", strings.Join(names, ","), elems, e2)
+			}
+		}
+		for _, i := range idx {
+			if strings.Contains(realStr[i], "*") {
+				continue
+			}
+			o, ok := Parse(realStr[i])
+			evals++
+			if !ok || !tree.Contains(&o) || !tree2.Contains(&o) {
+				fails++
+				if fails <= 20 {
+					fmt.Printf("GOVC-C01-FAIL list=%v origin=%s not contained before/after the Elems round trip (parsed=%t)\n", strings.Join(names, ","), realStr[i], ok)
+				}
+			}
+		}
+	}
+	var recReal func(idx []int)
+	recReal = func(idx []int) {
+		if len(idx) > 0 {
+			checkReal(idx)
+		}
+		if len(idx) == maxList {
+			return
+		}
+		for i := range real {
+			recReal(append(append([]int(nil), idx...), i))
+		}
+	}
+	recReal(nil)
 	fmt.Printf("GOVC-C01 maxlist=%d universe=%d probes=%d lists=%d evals=%d nontrivial=%d fails=%d sample=%s\n",
 		maxList, len(universe), len(probes), lists, evals, nontrivial, fails, strings.ReplaceAll(sample, " ", ","))
 }
